@@ -15,7 +15,13 @@ import time
 from .core import ROOT, jdump
 
 NPROC = int(os.environ.get("VERIF_NPROC", "16"))
-BACKSTOP = int(os.environ.get("VERIF_RUN_BACKSTOP", "900"))  # s; inconclusive
+
+
+def backstop():
+    """Per-process wall-clock backstop in seconds (inconclusive, never a
+    violation); nominal cost of one run is 5-30 s."""
+    return int(os.environ.get("VERIF_RUN_BACKSTOP", "900"))
+
 
 
 class Workspace:
@@ -64,7 +70,7 @@ def run_step(hdir_root, step_job, step_index, timeout=None):
     job["hdir"] = os.path.join(hdir_root, "h")
     job["step"] = step_index
     job["report"] = os.path.join(job["hdir"], f"report_{step_index}.json")
-    job.setdefault("dump_after", max(5, (timeout or BACKSTOP) - 10))
+    job.setdefault("dump_after", max(5, (timeout or backstop()) - 10))
     jp = os.path.join(job["hdir"], f"job_{step_index}.json")
     with open(jp, "w") as f:
         f.write(jdump(job))
@@ -74,7 +80,7 @@ def run_step(hdir_root, step_job, step_index, timeout=None):
         p = subprocess.run(
             [sys.executable, "-m", "vf.driver", jp],
             env=_env(), stdout=log, stderr=subprocess.STDOUT,
-            timeout=timeout or BACKSTOP, cwd=ROOT,
+            timeout=timeout or backstop(), cwd=ROOT,
         )
         rc = p.returncode
         timed_out = False
